@@ -10,7 +10,7 @@ from ..ir import E
 from .. import q
 
 TITLE = 'transactional FIFO commit/rollback pointers'
-FLOOR = 25
+FLOOR = 40
 DECIDES = ('For several depths/widths (power-of-two depth, power-of-two ring, the 512x10 instance used by the USB2 '
            'endpoints), on every ring-ordered pointer state (exhaustive for small depths, corner states otherwise) and '
            'every combination of the six strobes: (a) storage holds at least depth+1 words of the configured width, '
@@ -247,7 +247,7 @@ def check(ctx, width, depth, dyn):
     ctx.need(len(rps) == 1 and len(wps) == 1, 'one read and one write port on the FIFO memory')
     rp, wp = rps[0], wps[0]
     P = {k: p.attrs[f].canon() for k, (p, f) in {'waddr': (wp, 'addr'), 'wdata': (wp, 'data'), 'wen': (wp, 'en'),
-                                                    'raddr': (rp, 'addr'), 'rdata': (rp, 'data')}.items()}
+                                                    'raddr': (rp, 'addr'), 'rdata': (rp, 'data'), 'ren': (rp, 'en')}.items()}
     ctx.ob('C18.storage', '%s.memory.depth[%s]' % (CLS, tag), isinstance(mem.depth, int) and mem.depth >= N, mem.loc,
            'one slot of the ring is sacrificed to tell full from empty: the memory needs at least depth+1 = %d words, '
            'it has %r' % (N, mem.depth))
@@ -258,7 +258,7 @@ def check(ctx, width, depth, dyn):
     for r in ('cw', 'kw', 'cr', 'kr'):
         si = ir.signals[role[r]]
         ctx.ob('C18.pointer-range', '%s.%s[%s]' % (CLS, ROLE_NAME[r].replace(' ', '_'), tag),
-               isinstance(si.w, int) and (1 << si.w) > D and (si.rng is None or si.rng[1] > D), si.loc,
+               isinstance(si.w, int) and (1 << si.w) > D, si.loc,
                'the %s (%s, width %s, range %s) must be able to hold the last slot address %d' % (
                    ROLE_NAME[r], role[r], si.w, si.rng, D))
     si = ir.signals['self.space_available']
@@ -294,8 +294,8 @@ def check(ctx, width, depth, dyn):
 
             def chk(name, ok, why):
                 dyn[name].check(ok, why, nb)
-            if bits == (0,) * 6 or bits == (1,) * 6:
-                # (b) status equations (do not depend on the strobes; two strobe settings make sure of that)
+            if True:
+                # (b) status equations (for every strobe setting: they must not depend on the strobes)
                 e_, f_, s_ = (mdl.sig(n, env, memo) for n in ('self.empty', 'self.full', 'self.space_available'))
                 st_empty.check(e_ == int(readable == 0), 'empty = %d with %d committed unread entries (%s)' % (e_, readable, desc))
                 st_full.check(f_ == int(held == D), 'full = %d with %d of %d entries held (%s)' % (f_, held, D, desc))
@@ -351,14 +351,16 @@ def check(ctx, width, depth, dyn):
                 want_cr = kr if rds else (cr + 1) % N if r_adv else cr
                 want_kw = cw if wcm else kw
                 ra = mdl.sig(P['raddr'], env, memo)
+                if P['ren'] in mdl.comb and not mdl.sig(P['ren'], env, memo):
+                    ra = 'nothing (read port disabled)'
                 case = 'discard' if rds else 'advance' if r_adv else 'hold'
                 if rd_sync:
                     if want_cr != want_kw:           # read_data matters next cycle only if the FIFO is then not empty
                         chk('read-address@' + case, ra == want_cr, lambda: (
-                            'the synchronous read port is addressed with %d but the current read pointer is %d in the next '
+                            'the synchronous read port is addressed with %s but the current read pointer is %d in the next '
                             'cycle: read_data then shows a stale entry while empty is low (%s)' % (ra, want_cr, ins)))
                 elif readable:
-                    chk('read-address@' + case, ra == cr, lambda: 'asynchronous read port addressed with %d, current '
+                    chk('read-address@' + case, ra == cr, lambda: 'asynchronous read port addressed with %s, current '
                                                       'read pointer is %d (%s)' % (ra, cr, ins))
             rdv = mdl.sig('self.read_data', env, memo)
             chk('read-data', rdv == env[P['rdata']], lambda: 'read_data = %#x, memory read port data = %#x (%s)' % (
